@@ -1,4 +1,3 @@
-
 // Package workerlib is the body of the simulation worker process (search, replay, minimise, list); the L1 worker
 // a test binary because testing/synctest needs a *testing.T.
 package workerlib
